@@ -79,6 +79,12 @@ package go2coq
 // *p of a package-level pointer variable, a function literal handed to a library function as a
 // definition of its own -- is added by world_data.go; its conditions are stated at the top of
 // that file.
+//
+// Values moved between the calls -- [N]byte arrays, x[i] as an integer, make([]byte, n), library
+// functions that write through an argument (WLib.Out), calls of function-valued fields, read-only
+// package-level variables (WorldConfig.PkgVars), f := func(...) ... { return e }, a ...any
+// arguments by kind (WLib.AnyArgs), instance keys, panic(e) -- are added by world_values.go; its
+// conditions are stated at the top of that file.
 
 import (
 	"fmt"
@@ -107,6 +113,10 @@ type WLib struct {
 	Kind WKind
 	// Fresh: a slice result shares no backing array with anything else (world_data.go: append)
 	Fresh bool
+	// world_values.go: Out: the arguments (1-based; 0: the receiver) the function changes; AnyArgs: the
+	// arguments of the variadic parameter are wrapped by their static kind
+	Out     []int
+	AnyArgs bool
 }
 
 // WType is the denotation of a library type in world mode.
@@ -138,6 +148,8 @@ type WorldConfig struct {
 	// DerefVars: "importpath.name" of package-level pointer variables -> the Coq term of *name
 	Structs   map[string]Struct
 	DerefVars map[string]string
+	// world_values.go: PkgVars: "importpath.name" of package-level variables of translated packages that are only read
+	PkgVars map[string]string
 }
 
 type wpkg struct {
@@ -188,6 +200,7 @@ type wtr struct {
 	structs map[*types.Named]*wstruct
 	decls   strings.Builder // Records, in dependency order
 	wname   string
+	cur     *wpkg // world_values.go: the package of the call being resolved (instance keys)
 }
 
 func (t *wtr) fail(n ast.Node, format string, a ...any) {
@@ -327,6 +340,7 @@ type wcall struct {
 
 func (t *wtr) resolve(p *wpkg, c *ast.CallExpr) wcall {
 	fun := ast.Unparen(c.Fun)
+	t.cur = p // world_values.go
 	if tv, ok := p.info.Types[fun]; ok && tv.IsType() {
 		return wcall{kind: wcConv}
 	}
@@ -346,6 +360,9 @@ func (t *wtr) resolve(p *wpkg, c *ast.CallExpr) wcall {
 		}
 	case *ast.SelectorExpr:
 		if sel := p.info.Selections[x]; sel != nil {
+			if r, ok := t.fieldFuncCall(c, x, sel); ok { // world_values.go
+				return r
+			}
 			if sel.Kind() != types.MethodVal {
 				t.fail(c, "call of a function-valued field or method expression")
 			}
@@ -366,7 +383,7 @@ func (t *wtr) resolveFunc(c *ast.CallExpr, o *types.Func, recv ast.Expr, path []
 	if f, ok := t.funcs[o]; ok {
 		return wcall{kind: wcTranslated, fn: f, obj: o, sig: sig, recv: recv, path: path}
 	}
-	key := o.FullName()
+	key := t.instanceKey(c, o.FullName()) // world_values.go
 	if o.Pkg() != nil && t.byPath[o.Pkg().Path()] != nil {
 		// a function of a translated package that is not among the translated functions -- unless
 		// it is an interface method given by the table
@@ -538,6 +555,10 @@ func (t *wtr) kindOf(T types.Type) wkind {
 		if t.structOf(u.Elem()) != nil {
 			return wkList
 		}
+	case *types.Array: // world_values.go
+		if _, ok := isByteArray(T); ok {
+			return wkBytes
+		}
 	case *types.Pointer:
 		if t.structOf(u.Elem()) != nil {
 			return wkPtr
@@ -640,6 +661,9 @@ func (t *wtr) coqType(n ast.Node, T types.Type) string {
 
 func (t *wtr) zero(n ast.Node, T types.Type) string {
 	T = types.Unalias(T)
+	if z, ok := t.arrayZero(T); ok { // world_values.go
+		return z
+	}
 	switch t.kindOf(T) {
 	case wkNamed:
 		z := t.cfg.Types[wTypeKey(T)].Zero
@@ -1057,6 +1081,7 @@ func (fn *wfn) callTargets(c *ast.CallExpr, add func(*types.Var)) (drop bool) {
 			}
 		}
 	case wcLib:
+		fn.outTargets(c, r, add) // world_values.go
 		switch r.lib.Kind {
 		case WWorld, WWorldRO:
 			if fn.world != nil {
